@@ -226,10 +226,16 @@ namespace CDNS {
          * @throw CborOutputException if writing to output file descriptor fails
          */
         void write(const char* p, std::size_t size) override {
-            int ret = ::write(m_value, p, size);
-            if (ret != static_cast<int>(size)) {
-                throw CborOutputException("Given " + std::to_string(size) + " bytes to write, but "
-                                        "only " + std::to_string(ret) + " bytes were written!");
+            std::size_t written = 0;
+
+            // write() may accept only a part of the data (short write), continue with the rest
+            while (written < size) {
+                ssize_t ret = ::write(m_value, p + written, size - written);
+                if (ret <= 0) {
+                    throw CborOutputException("Given " + std::to_string(size) + " bytes to write, but "
+                                            "only " + std::to_string(written) + " bytes were written!");
+                }
+                written += static_cast<std::size_t>(ret);
             }
         }
 
